@@ -9,6 +9,7 @@ package main
 
 import (
 	"go/token"
+	"sort"
 
 	"golang.org/x/tools/go/ssa"
 )
@@ -17,6 +18,29 @@ type deepInstr struct {
 	in     ssa.Instruction   // the instruction itself (in F or in a helper)
 	anchor ssa.Instruction   // the instruction of F it is reached through (== in when it is in F)
 	chain  []ssa.Instruction // call sites from F down to the helper holding `in` (empty when in F)
+	sels   []tableSel        // for each call of the chain made through a constant table of functions: the row
+}
+
+// tableSel: the helper was reached through `table[index](…)`, table a package-level map (or array) of
+// function literals that nothing writes after its initialisation; this is the row with the given key.
+type tableSel struct {
+	level int       // position in chain
+	index ssa.Value // the index expression at the call site
+	key   int64
+}
+
+// tableKeyFor: the key of the table row through which the instruction is reached, when the table was
+// indexed by v (as bound to the caller's values).
+func (d deepInstr) tableKeyFor(v ssa.Value) (int64, bool) {
+	for _, s := range d.sels {
+		idx := s.index
+		// bind the index up through the part of the chain above the table call
+		up := deepInstr{chain: d.chain[:s.level]}
+		if stripConv(up.bindVal(stripConv(idx))) == v || stripConv(idx) == v {
+			return s.key, true
+		}
+	}
+	return 0, false
 }
 
 // guards: the atoms known to hold at the instruction: those at every call site of the chain plus those
@@ -149,6 +173,31 @@ func deepInstrs(p *Prog, fn *ssa.Function, depth int, enter func(call ssa.Instru
 				return
 			}
 			callee := cc.StaticCallee()
+			if callee == nil && !cc.IsInvoke() {
+				// a call through a constant table of function literals: every row is a helper
+				if idx, rows := funcTableRows(p, cc.Value); rows != nil {
+					keys := make([]int64, 0, len(rows))
+					for k := range rows {
+						keys = append(keys, k)
+					}
+					sort.Slice(keys, func(i, j int) bool { return keys[i] < keys[j] })
+					for _, k := range keys {
+						h := rows[k]
+						if h.Pkg != fn.Pkg || len(h.Blocks) == 0 || seen[h] {
+							continue
+						}
+						seen[h] = true
+						nchain := append(append([]ssa.Instruction(nil), chain...), in)
+						before := len(out)
+						walk(h, nchain, d-1, seen)
+						for i := before; i < len(out); i++ {
+							out[i].sels = append(out[i].sels, tableSel{level: len(chain), index: idx, key: k})
+						}
+						delete(seen, h)
+					}
+				}
+				return
+			}
 			if callee == nil || callee.Pkg != fn.Pkg || len(callee.Blocks) == 0 || seen[callee] {
 				return
 			}
@@ -162,4 +211,77 @@ func deepInstrs(p *Prog, fn *ssa.Function, depth int, enter func(call ssa.Instru
 	}
 	walk(fn, nil, depth, map[*ssa.Function]bool{fn: true})
 	return out
+}
+
+// funcTableRows: v is `table[index]` with table a package-level map or array of function literals that
+// is filled by the package initialiser and written nowhere else: the index expression and the rows.
+func funcTableRows(p *Prog, v ssa.Value) (ssa.Value, map[int64]*ssa.Function) {
+	var tab, idx ssa.Value
+	switch x := v.(type) {
+	case *ssa.Lookup:
+		tab, idx = x.X, x.Index
+	case *ssa.UnOp: // *(&table[i]) of an array or slice
+		ia, ok := x.X.(*ssa.IndexAddr)
+		if !ok || x.Op != token.MUL {
+			return nil, nil
+		}
+		tab, idx = ia.X, ia.Index
+	default:
+		return nil, nil
+	}
+	var g *ssa.Global
+	switch y := tab.(type) {
+	case *ssa.UnOp:
+		g, _ = y.X.(*ssa.Global)
+	case *ssa.Global:
+		g = y
+	}
+	if g == nil || g.Pkg == nil || globalIsStored(p, g) {
+		return nil, nil
+	}
+	init := g.Pkg.Func("init")
+	if init == nil {
+		return nil, nil
+	}
+	rows := map[int64]*ssa.Function{}
+	ok := true
+	// the value stored into the global: a map made in init and filled by MapUpdates, or an array
+	// filled by stores through IndexAddr
+	var made ssa.Value
+	eachInstr(init, func(in ssa.Instruction) {
+		if st, isSt := in.(*ssa.Store); isSt && st.Addr == ssa.Value(g) {
+			made = st.Val
+		}
+	})
+	eachInstr(init, func(in ssa.Instruction) {
+		switch x := in.(type) {
+		case *ssa.MapUpdate:
+			if made == nil || x.Map != made {
+				return
+			}
+			k, isK := constInt(x.Key)
+			f, isF := x.Value.(*ssa.Function)
+			if !isK || !isF {
+				ok = false
+				return
+			}
+			rows[k] = f
+		case *ssa.Store:
+			ia, isIA := x.Addr.(*ssa.IndexAddr)
+			if !isIA || ia.X != ssa.Value(g) {
+				return
+			}
+			k, isK := constInt(ia.Index)
+			f, isF := x.Val.(*ssa.Function)
+			if !isK || !isF {
+				ok = false
+				return
+			}
+			rows[k] = f
+		}
+	})
+	if !ok || len(rows) == 0 {
+		return nil, nil
+	}
+	return idx, rows
 }
